@@ -455,7 +455,8 @@ def _tasks(tier, seed):
   static_tasks, tasks = tasks, []
   for i in range(len(dyn)):
     add({"gen": "explicit", "mode": "dynamic", "specs": dyn[i:i + 1],
-         "seeds": [rng.randrange(1 << 30) for _ in range(nseeds)]}, f"ninja/{i}", timeout=3000)
+         "seeds": [rng.randrange(1 << 30) for _ in range(nseeds)]}, f"ninja/{i}",
+        timeout=3000 if quick else 7200)
   return tasks + static_tasks      # the ninja batches wait on sleeps: start them first
 
 
